@@ -12,7 +12,7 @@ def classify_crash(cr):
 
 SPEC = {
     'id': 'C15',
-    'lean_modules': ['AITB.Props.C15', 'AITB.Props.C15Gen', 'AITB.Props.C15Top', 'AITB.Props.C15Mdp', 'AITB.Props.C15Cex', 'AITB.Props.C15Flat', 'AITB.Props.C15Clean', 'AITB.Props.C15Facts'],
+    'lean_modules': ['AITB.Props.C15', 'AITB.Props.C15Gen', 'AITB.Props.C15Top', 'AITB.Props.C15Mdp', 'AITB.Props.C15Cex', 'AITB.Props.C15Flat', 'AITB.Props.C15Clean', 'AITB.Props.C15Facts', 'AITB.Props.C15Bp', 'AITB.Props.C15Obj'],
     'theorems': [
         'AITB.FLP.weak_duality_sound',
         'AITB.FLP.optimalPair_sound',
@@ -64,6 +64,15 @@ SPEC = {
         'AITB.FLP.flpGen_clean',
         'AITB.FLP.mdpGen_clean',
         'AITB.FLP.gen_facts_hold',
+        'AITB.FLP.bpModel_is_expectation',
+        'AITB.FLP.bpModel_WF',
+        'AITB.FLP.mdpLP_equiv_bellman_bp',
+        'AITB.FLP.mdpLP_sound_bellman_bp',
+        'AITB.FLP.q_is_backup',
+        'AITB.FLP.mdpLP_same_optimum_bp',
+        'AITB.FLP.basis_mean',
+        'AITB.FLP.statedObj_eq_flatObj',
+        'AITB.FLP.statedObj_is_uniform_average',
     ],
     'harness': 'harness/c15.cpp',
     # the calls LpSolveWrapper.cpp makes into lp_solve are recorded at link time (the library is not modified)
